@@ -81,7 +81,7 @@ def run_startpoints(tier, funcs, index, enums, res):
 
 def run_exec(prop, tier, funcs, index, enums, res):
     import c08_exec
-    kinds = ["multi", "multi_dir", "multi_quit"] if prop == "C08" else ["single", "single_dir"]
+    kinds = ["multi", "multi_dir", "multi_quit", "multi_two"] if prop == "C08" else ["single", "single_dir"]
     res["target"] = ("process_dir + WalkEntry::from_walkdir + %s (built by the real expression parser from '-exec[dir] cmd ... %s') over a scripted walkdir tree"
                      % (("MultiExecMatcher::{new,matches,finished_dir,finished,run_command,new_command}", "{} +") if prop == "C08"
                         else ("SingleExecMatcher::{new,matches}", ";")))
@@ -113,7 +113,7 @@ def run_readers(tier, funcs, index, enums, res):
         for v in r.pop("violations"):
             res["violations"].append({"key": "%s | %s" % (kind, v["what"].split(",")[0][:40]), "summary": "%s reader, input %s, read() sizes %s%s: %s" % (
                 kind, v.get("input"), v.get("chunks"), (", delimiter %#x" % v["delimiter"]) if v.get("delimiter") is not None else "", v["what"]),
-                "replayer": "reader_bytes", "kind": kind, "input": v.get("input"), "delimiter": v.get("delimiter"), "what": v["what"]})
+                "replayer": "reader_bytes", "kind": kind, "input": v.get("input"), "delimiter": v.get("delimiter"), "chunks": v.get("chunks"), "what": v["what"]})
         for k, c in r.pop("unsupported").items():
             res["unsupported"][k] = res["unsupported"].get(k, 0) + c
         r["bound"] = "%s reader, %d bytes over %d letters, %d chunkings" % (kind, n, len(alpha), len(r["chunkings"]))
